@@ -32,6 +32,14 @@ import Gozod.Gen.Cert_isodate
 import Gozod.Gen.Cert_isodatetime_optsec
 import Gozod.Gen.Cert_isodatetime_partial
 import Gozod.Gen.Cert_base64url_partial
+import Gozod.Gen.Cert_macdot
+import Gozod.Gen.Cert_tmo_n
+import Gozod.Gen.Cert_tmo_m
+import Gozod.Gen.Cert_tmo_0
+import Gozod.Gen.Cert_tmo_1
+import Gozod.Gen.Cert_tmo_2
+import Gozod.Gen.Cert_tmo_3
+import Gozod.Gen.Cert_tmo_9
 namespace Gozod.C20
 open Gozod Gozod.Re
 
@@ -213,5 +221,34 @@ theorem c20_base64url_pattern_witness : ¬ c20_base64url_pattern_full := fun h =
 example : Fmt.base64urlBadLen.run (b! "QUJDRA") = false ∧ Fmt.base64url.run (b! "QUJDRA") = true ∧
     Fmt.base64urlBadLen.run (b! "A") = true ∧ Fmt.base64urlBadLen.run (b! "QUI=") = false ∧
     Fmt.base64url.run (b! "QUI=") = true := by decide +kernel
+
+/-! ## option-taking constructors
+
+  IsoTime(IsoTimeOptions{Precision}) is validated by `regex.Time(options)`, regenerated per precision
+  (`Gen.val_tmo_<p>`; p = n: nil, m: -1, 0, 1, 2, 3, 9); MAC(".") by `regex.MAC(".")`.
+  IsoDateTime(IsoDatetimeOptions{…}) (28 option sets) is tied to `Fmt.isoDateTimeOpt` by the
+  correspondence only (no certificates: 28 × the date automaton is too much kernel time). -/
+
+theorem c20_macdot : ∀ s, accepts Gen.val_macdot s = (Fmt.mac 46).run s := bisim_sound_full _ _ Gen.cert_macdot_ok
+theorem c20_tmo_n : ∀ s, accepts Gen.val_tmo_n s = (Fmt.isoTimeOpt .any).run s := bisim_sound_full _ _ Gen.cert_tmo_n_ok
+theorem c20_tmo_m : ∀ s, accepts Gen.val_tmo_m s = (Fmt.isoTimeOpt .minute).run s := bisim_sound_full _ _ Gen.cert_tmo_m_ok
+theorem c20_tmo_0 : ∀ s, accepts Gen.val_tmo_0 s = (Fmt.isoTimeOpt (.digits 0)).run s := bisim_sound_full _ _ Gen.cert_tmo_0_ok
+theorem c20_tmo_1 : ∀ s, accepts Gen.val_tmo_1 s = (Fmt.isoTimeOpt (.digits 1)).run s := bisim_sound_full _ _ Gen.cert_tmo_1_ok
+theorem c20_tmo_2 : ∀ s, accepts Gen.val_tmo_2 s = (Fmt.isoTimeOpt (.digits 2)).run s := bisim_sound_full _ _ Gen.cert_tmo_2_ok
+theorem c20_tmo_3 : ∀ s, accepts Gen.val_tmo_3 s = (Fmt.isoTimeOpt (.digits 3)).run s := bisim_sound_full _ _ Gen.cert_tmo_3_ok
+theorem c20_tmo_9 : ∀ s, accepts Gen.val_tmo_9 s = (Fmt.isoTimeOpt (.digits 9)).run s := bisim_sound_full _ _ Gen.cert_tmo_9_ok
+
+example : (Fmt.isoTimeOpt (.digits 0)).run (b! "06:15:00") = true ∧ (Fmt.isoTimeOpt (.digits 0)).run (b! "06:15:00.123") = false ∧
+    (Fmt.isoTimeOpt (.digits 0)).run (b! "06:15") = false ∧ (Fmt.isoTimeOpt .any).run (b! "06:15") = true ∧
+    (Fmt.isoTimeOpt (.digits 3)).run (b! "06:15:00.123") = true ∧ (Fmt.isoTimeOpt (.digits 3)).run (b! "06:15:00.12") = false ∧
+    (Fmt.isoTimeOpt .minute).run (b! "06:15:00") = false := by decide +kernel
+
+/-- the specification separates the option sets that a cache keyed without the nil/0 distinction would merge -/
+example : (Fmt.isoDateTimeOpt (.digits 0) true false).run (b! "2020-01-01T06:15:00.123+02:00") = false ∧
+    (Fmt.isoDateTimeOpt (.digits 0) true false).run (b! "2020-01-01T06:15Z") = false ∧
+    (Fmt.isoDateTimeOpt .any true false).run (b! "2020-01-01T06:15:00.123+02:00") = true ∧
+    (Fmt.isoDateTimeOpt .any true false).run (b! "2020-01-01T06:15Z") = true ∧
+    (Fmt.isoDateTimeOpt .any false true).run (b! "2020-01-01T06:15") = true ∧
+    (Fmt.isoDateTimeOpt .any false false).run (b! "2020-01-01T06:15:00+02:00") = false := by decide +kernel
 
 end Gozod.C20
